@@ -9,7 +9,9 @@ git -C /repo archive HEAD | tar -x -C "$D"
 # include uncommitted working-tree state of /repo too
 (cd /repo && git diff HEAD) | (cd "$D" && git apply --allow-empty 2>/dev/null || true)
 case "$SPEC" in
-  revert:*) SHA=${SPEC#revert:}; (cd /repo && git diff "$SHA~" "$SHA") | (cd "$D" && patch -R -p1 -s) || { echo "REVERT FAILED"; exit 2; } ;;
+  revert:*) for SHA in $(echo "${SPEC#revert:}" | tr ',' ' '); do   # several commits: newest first
+              (cd /repo && git diff "$SHA~" "$SHA") | (cd "$D" && patch -R -p1 -s) || { echo "REVERT FAILED"; exit 2; }
+            done ;;
   *) (cd "$D" && patch -p1 -s < "$SPEC") || { echo "PATCH FAILED"; exit 2; } ;;
 esac
 echo "== baseline on mutant: $(cd "$D" && /venv/bin/python -m pytest -q -p no:cacheprovider 2>&1 | tail -1)"
